@@ -48,6 +48,7 @@ package fallback
 // the caller takes the first non-nil result of at most two, reports an error only when two
 // workers reported "no answer" or its context ended.
 //@ func (f *fallback) doFallback [C20]
+//@   log doFallback
 // (Stated for the usual case that no response is present yet when the fallback starts.)
 //@   requires f != nil && ctx != nil && qCtx != nil && qCtx.query != nil && qCtx.resp == nil
 //@   modifies *
@@ -60,3 +61,10 @@ package fallback
 //@     invariant 0 <= i && i <= 2 && f != nil && ctx != nil && qCtx != nil && respChan != nil
 //@     each iter_calls(chanRecv) == 1 && iter_arg(chanRecv, 0, 0) == respChan && iter_ret(chanRecv, 0, 0) == nil && iter_calls(SetResponse) == 0
 //@     decreases 2 - i
+
+// Exec (C20): the fallback runs under the CALLER's context (its cancellation and deadline), on the
+// caller's query context.
+//@ func (f *fallback) Exec [C20]
+//@   requires f != nil && ctx != nil && qCtx != nil && qCtx.query != nil && qCtx.resp == nil
+//@   modifies *
+//@   ensures calls(doFallback) == 1 && arg(doFallback, 0, 0) == f && arg(doFallback, 0, 1) == ctx && arg(doFallback, 0, 2) == qCtx && result == ret(doFallback, 0)
